@@ -277,12 +277,12 @@ Print Assumptions scan_replaces_by_a_newer_generation.
    each with its sector-bound token -- is stepped over as a whole and is not retired again;
    free (zero) blocks are stepped over one at a time; neither touches the index *)
 Theorem scan_skips_a_complete_marker_run : forall c version total sector n st jl rest',
-  c_ro c = false -> has_token version = true ->
+  (c_ro c = false \/ jl = []) -> has_token version = true ->
   0 < n -> sector + n <= total -> total <= U64MAX ->
   scan_step c version total sector (marker_run sector n (N.to_nat n) ++ rest') st jl = Ok (Advance (sector + n) st jl).
 Proof. exact scan_step_skips_a_complete_marker_run. Qed.
 Check scan_skips_a_complete_marker_run : forall c version total sector n st jl rest',
-  c_ro c = false -> has_token version = true ->
+  (c_ro c = false \/ jl = []) -> has_token version = true ->
   0 < n -> sector + n <= total -> total <= U64MAX ->
   scan_step c version total sector (marker_run sector n (N.to_nat n) ++ rest') st jl = Ok (Advance (sector + n) st jl).
 Print Assumptions scan_skips_a_complete_marker_run.
@@ -339,7 +339,7 @@ Print Assumptions every_laid_out_record_is_indexed.
    records, entries of other keys stay); nothing is queued for retirement; and the free-space manager
    the scan builds holds, up to the end of the last record, exactly the blocks no record covers ---- *)
 Theorem scan_reads_any_quiescent_data_area : forall c version total jl img,
-  c_ro c = false -> has_token version = true -> total <= U64MAX ->
+  (c_ro c = false \/ jl = []) -> has_token version = true -> total <= U64MAX ->
   forall its fuel sector st,
   Forall (item_ok version) its -> distinct_keys (recs_of its) ->
   (forall r, In r (recs_of its) -> idx_find (r_key r) (rs_idx st) = None) ->
@@ -360,7 +360,7 @@ Theorem scan_reads_any_quiescent_data_area : forall c version total jl img,
     (forall b, rs_last_end st' <= b -> ~ covered version sector its b).
 Proof. exact scan_reads_a_quiescent_data_area. Qed.
 Check scan_reads_any_quiescent_data_area : forall c version total jl img,
-  c_ro c = false -> has_token version = true -> total <= U64MAX ->
+  (c_ro c = false \/ jl = []) -> has_token version = true -> total <= U64MAX ->
   forall its fuel sector st,
   Forall (item_ok version) its -> distinct_keys (recs_of its) ->
   (forall r, In r (recs_of its) -> idx_find (r_key r) (rs_idx st) = None) ->
@@ -384,7 +384,7 @@ Print Assumptions scan_reads_any_quiescent_data_area.
 (* from the state open_image starts with, including the release of the tail after the scan: every
    block of the data area is free exactly when no live record's extent covers it *)
 Theorem quiescent_data_area_is_read_and_partitioned : forall c version total jl img,
-  c_ro c = false -> has_token version = true -> total <= U64MAX ->
+  (c_ro c = false \/ jl = []) -> has_token version = true -> total <= U64MAX ->
   forall its st0 fuel,
   (length its < fuel)%nat ->
   rs_fs st0 = mkfs [] (total * FEOX_BLOCK_SIZE) 0 0 -> rs_last_end st0 = FEOX_DATA_START_BLOCK -> rs_idx st0 = [] ->
@@ -402,7 +402,7 @@ Theorem quiescent_data_area_is_read_and_partitioned : forall c version total jl 
                (FreeSpaceProofs.free (rs_fs st'') b <-> ~ covered version FEOX_DATA_START_BLOCK its b)).
 Proof. exact quiescent_data_area_is_partitioned. Qed.
 Check quiescent_data_area_is_read_and_partitioned : forall c version total jl img,
-  c_ro c = false -> has_token version = true -> total <= U64MAX ->
+  (c_ro c = false \/ jl = []) -> has_token version = true -> total <= U64MAX ->
   forall its st0 fuel,
   (length its < fuel)%nat ->
   rs_fs st0 = mkfs [] (total * FEOX_BLOCK_SIZE) 0 0 -> rs_last_end st0 = FEOX_DATA_START_BLOCK -> rs_idx st0 = [] ->
@@ -567,6 +567,49 @@ Check open_reads_any_quiescent_file : forall c img m jgen jslot its,
     (forall b, FEOX_DATA_START_BLOCK <= b < total ->
                (FreeSpaceProofs.free (o_fs o) b <-> ~ covered (m_version m) FEOX_DATA_START_BLOCK its b)).
 Print Assumptions open_reads_any_quiescent_file.
+
+(* the same for a read-only open (the mode in which the model serves as the "independent reader" of
+   the flushed-file checks, and the mode of the migration source): whether read-write or read-only,
+   TTL filtering off, the open of a quiescent version-3 file writes nothing and reports exactly the
+   records and the partition *)
+Theorem the_independent_reader_reads_any_quiescent_file : forall c img m jgen jslot its,
+  c_now c = None ->
+  (17 <= length img)%nat ->
+  let total := N.of_nat (length img) in
+  let mb := if select_meta (nth_block img 0) (nth_block img (N.to_nat FEOX_METADATA_BACKUP_BLOCK))
+            then nth_block img (N.to_nat FEOX_METADATA_BACKUP_BLOCK) else nth_block img 0 in
+  list_eqb (firstn 8 mb) SIGNATURE = true -> decode_meta mb = Some m -> has_token (m_version m) = true ->
+  decode_journal (slot_bytes img 0) (slot_bytes img 1) total = Some (jgen, jslot, []) ->
+  total * FEOX_BLOCK_SIZE < U64 ->
+  Forall (item_ok (m_version m)) its -> distinct_keys (recs_of its) ->
+  skipn (N.to_nat FEOX_DATA_START_BLOCK) img = ilayout (m_version m) FEOX_DATA_START_BLOCK its ->
+  exists o,
+    open_image c img = (Ok o, img) /\
+    o_version o = m_version m /\ o_img o = img /\
+    (forall r, In r (recs_of its) -> exists s, idx_find (r_key r) (o_idx o) = Some (entry_of (m_version m) r s)) /\
+    o_count o = N.of_nat (length (recs_of its)) /\
+    (forall b, FEOX_DATA_START_BLOCK <= b < total ->
+               (FreeSpaceProofs.free (o_fs o) b <-> ~ covered (m_version m) FEOX_DATA_START_BLOCK its b)).
+Proof. exact open_reads_a_quiescent_file_in_either_mode. Qed.
+Check the_independent_reader_reads_any_quiescent_file : forall c img m jgen jslot its,
+  c_now c = None ->
+  (17 <= length img)%nat ->
+  let total := N.of_nat (length img) in
+  let mb := if select_meta (nth_block img 0) (nth_block img (N.to_nat FEOX_METADATA_BACKUP_BLOCK))
+            then nth_block img (N.to_nat FEOX_METADATA_BACKUP_BLOCK) else nth_block img 0 in
+  list_eqb (firstn 8 mb) SIGNATURE = true -> decode_meta mb = Some m -> has_token (m_version m) = true ->
+  decode_journal (slot_bytes img 0) (slot_bytes img 1) total = Some (jgen, jslot, []) ->
+  total * FEOX_BLOCK_SIZE < U64 ->
+  Forall (item_ok (m_version m)) its -> distinct_keys (recs_of its) ->
+  skipn (N.to_nat FEOX_DATA_START_BLOCK) img = ilayout (m_version m) FEOX_DATA_START_BLOCK its ->
+  exists o,
+    open_image c img = (Ok o, img) /\
+    o_version o = m_version m /\ o_img o = img /\
+    (forall r, In r (recs_of its) -> exists s, idx_find (r_key r) (o_idx o) = Some (entry_of (m_version m) r s)) /\
+    o_count o = N.of_nat (length (recs_of its)) /\
+    (forall b, FEOX_DATA_START_BLOCK <= b < total ->
+               (FreeSpaceProofs.free (o_fs o) b <-> ~ covered (m_version m) FEOX_DATA_START_BLOCK its b)).
+Print Assumptions the_independent_reader_reads_any_quiescent_file.
 
 (* non-vacuity: two records (one of them spanning two blocks) on a v3 layout *)
 Example packed_area_is_scanned :
